@@ -4,7 +4,7 @@
 //! `Node::validate_and_store_record` (path c) / `Node::store_replicated_in_record` (path r).
 //! kinds: chunk chunkp pad padp (valid records) junk junkp (canonical header + filler, exact length).  Output: `<result class> puts=<number of PutLocalRecord>`.
 use crate::world::*;
-use ant_protocol::storage::{try_serialize_record, Chunk, RecordKind, Scratchpad, ScratchpadAddress};
+use ant_protocol::storage::{try_serialize_record, Chunk, RecordKind, Scratchpad, ScratchpadAddress, Transaction};
 use bytes::Bytes;
 use libp2p::kad::{Record, RecordKey};
 
@@ -77,6 +77,9 @@ pub fn address_of(kind: &str, payload: usize) -> [u8; 32] {
 /// length within 63 bytes of `target ± 64` (away from the limit), hence strictly on `target`'s side of `LIMIT`.
 /// kinds `junk` / `junkp`: a canonical `Chunk` / `ChunkWithPayment` header followed by filler, exactly `target` bytes.
 pub fn build(kind: &str, target: usize, pay_for: &mut dyn FnMut([u8; 32]) -> Option<BuiltPay>) -> Option<Record> {
+    if kind == "txm" || kind == "txmp" {
+        return merge_incoming(kind, target, pay_for);
+    }
     if kind == "junk" || kind == "junkp" {
         let k = if kind == "junk" { RecordKind::Chunk } else { RecordKind::ChunkWithPayment };
         let mut v = ant_protocol::storage::RecordHeader { kind: k }.try_serialize().expect("hdr").to_vec();
@@ -116,4 +119,79 @@ pub fn build(kind: &str, target: usize, pay_for: &mut dyn FnMut([u8; 32]) -> Opt
         payload = next as usize;
     }
     best
+}
+
+// ---------------------------------------------------------------- the MERGED record (`bigm`)
+
+/// see `merge_parts`
+pub const SHIFT_M: usize = 512;
+
+/// a validly signed transaction of owner 0 with `n` outputs (content byte `c`): `outputs` is unbounded
+pub fn fat_tx(c: u8, n: usize) -> Transaction {
+    let other = bls_sk(50).public_key();
+    Transaction::new(bls_sk(0).public_key(), vec![], [c; 32], vec![(other, [0x5a; 32]); n], &bls_sk(0))
+}
+
+pub fn tx_record_len(txs: &[Transaction]) -> usize {
+    try_serialize_record(&txs.to_vec(), RecordKind::Transaction).expect("serialize").len()
+}
+
+/// Two transactions of owner 0 (key 1), each well below the limit on its own, whose UNION re-serialised as one
+/// `Transaction` record is `target` bytes long up to the jitter of signature encodings: the aim is moved `SHIFT_M`
+/// bytes further away from the limit and anything within `SHIFT_M - 1` of the aim is accepted (the Lean driver applies
+/// the same shift), so the merged record is strictly on `target`'s side of `LIMIT`.  Returns (held, incoming, merged length).
+pub fn merge_parts(target: usize) -> Option<(Transaction, Transaction, usize)> {
+    // signing and serialising megabytes is slow in a debug build: one computation per target
+    static CACHE: std::sync::Mutex<Option<(usize, Option<(Transaction, Transaction, usize)>)>> = std::sync::Mutex::new(None);
+    let mut g = CACHE.lock().expect("cache");
+    if let Some((t, v)) = g.as_ref() {
+        if *t == target {
+            return v.clone();
+        }
+    }
+    let v = merge_parts_uncached(target);
+    *g = Some((target, v.clone()));
+    v
+}
+
+fn merge_parts_uncached(target: usize) -> Option<(Transaction, Transaction, usize)> {
+    let aim = if target >= LIMIT { target + SHIFT_M } else { target.saturating_sub(SHIFT_M) };
+    let l0 = tx_record_len(&[fat_tx(0x41, 0), fat_tx(0x42, 0)]);
+    let l1 = tx_record_len(&[fat_tx(0x41, 1), fat_tx(0x42, 0)]);
+    let per = l1.checked_sub(l0).filter(|p| *p > 0)?;
+    let mut n = aim.saturating_sub(l0) / per;
+    for _ in 0..6 {
+        let (a, b) = (fat_tx(0x41, n / 2), fat_tx(0x42, n - n / 2));
+        let len = tx_record_len(&[a.clone(), b.clone()]);
+        if (len as i64 - aim as i64).abs() < SHIFT_M as i64 {
+            return Some((a, b, len));
+        }
+        let next = n as i64 + (aim as i64 - len as i64) / per as i64;
+        if next < 0 {
+            return None;
+        }
+        n = next as usize;
+    }
+    None
+}
+
+/// the record the node holds before the `bigm` delivery: the transaction set {held}
+pub fn merge_held(target: usize) -> Option<Record> {
+    let (a, _, _) = merge_parts(target)?;
+    let v = try_serialize_record(&vec![a], RecordKind::Transaction).ok()?.to_vec();
+    Some(Record { key: record_key(1), value: v, publisher: None, expires: None })
+}
+
+/// the delivered record: `txmp` = `TransactionWithPayment` (client path; the payment may be bad: the key is held),
+/// `txm` = a replicated vector
+pub fn merge_incoming(kind: &str, target: usize, pay_for: &mut dyn FnMut([u8; 32]) -> Option<BuiltPay>) -> Option<Record> {
+    let (_, b, _) = merge_parts(target)?;
+    let v = match kind {
+        "txmp" => {
+            let pay = pay_for(key_xorname(1))?;
+            try_serialize_record(&(pay.proof.clone(), b), RecordKind::TransactionWithPayment).ok()?.to_vec()
+        }
+        _ => try_serialize_record(&vec![b], RecordKind::Transaction).ok()?.to_vec(),
+    };
+    Some(Record { key: record_key(1), value: v, publisher: None, expires: None })
 }
